@@ -16,7 +16,7 @@ SlotKinds == {[k |-> "absent", to |-> "-"]} \cup [k : {"link"}, to : Targets]
 SegAlphabet == {"", ".", "..", "e", "d", "df", "L", "n", "up2"}
 Paths == UNION { [1..n -> SegAlphabet] : n \in 0..MaxSegs }
 Requests == [path : Paths, size : {"zero", "ok", "over"}, token : {"notneeded", "right", "wrong", "missing"},
-             mime : {"nolist", "allowed", "refused"}, deleteOn : BOOLEAN, fault : {"none", "partial", "perm"}]
+             mime : {"nolist", "allowed", "refused"}, deleteOn : BOOLEAN, fault : {"none", "partial", "perm", "dropbox"}]   \* dropbox: the directories can be written and searched but not read (mode 0300): storing works as ever
 VARIABLES slot, req, out
 vars == <<slot, req, out>>
 Exists(n) == n \in Dirs \cup Files \/ (n \in Slots /\ slot[n].k # "absent")
